@@ -298,6 +298,9 @@ class Interp:
             if isinstance(st.value, ast.Constant):
                 return
             self.eval(st.value, env, f)
+        elif isinstance(st, ast.Assert):
+            if not self.decide(self.truth(self.eval(st.test, env, f)), "assert " + norm(st.test)):
+                raise _Raise("AssertionError")
         elif isinstance(st, ast.Pass):
             return
         elif isinstance(st, ast.Assign):
